@@ -3,6 +3,7 @@ Props/C09.lean — Close, cancellation and use-after-close terminate and behave 
 -/
 import KafkaVerif.Model.WriterClose
 import KafkaVerif.Lemmas.WriterClose
+import KafkaVerif.Lemmas.WriterTrack
 import KafkaVerif.Model.ReaderClose
 import KafkaVerif.Lemmas.ReaderClose
 
@@ -182,22 +183,56 @@ theorem measure_decreases (cfg : Cfg) (s s' : State) (e : Event)
       · simp at hstep
     · simp at hstep
 
-/-- **close_terminates (partial)** — Writer.Close returns after finitely many steps.
+/-- **close_terminates** — Writer.Close returns after finitely many steps, in every interleaving.
 
-Full statement (DESIGN §7): in every reachable state of the repaired protocol in which Close waits, `CloseReturn` or a
-progress event is enabled, and every progress event decreases `mu`; hence Close returns after at most `mu` further
-library steps, whatever the interleaving with newly arriving calls (each adds a bounded amount of work: it is
-refused).  Proved here: exactly that, except that the third disjunct `WaitingBlocked` (a synchronous call waiting
-for a message that no live goroutine holds) is excluded by the message-tracking invariant `accepted ⊆ completed ∪
-held-by-a-live-partition-writer`, see `close_terminates` below when present / docs/notes/C09.md otherwise. -/
-theorem close_terminates_partial (cfg : Cfg) (hfix : cfg.fixed = true) (s : State) (hr : Reachable cfg s)
+In every reachable state of the repaired protocol in which Close waits, `CloseReturn` or a progress event (an
+internal event of the library, or the transport's answer to a metadata lookup it already holds) is enabled — Close
+is never blocked — and every internal event strictly decreases the measure `mu`.  Hence from such a state at most
+`mu cfg s` further internal events can happen before `CloseReturn` is the only thing left; newly arriving calls
+are refused (`enter_after_close_ErrClosedPipe`) and add a bounded amount (3) to the measure each.
+The third disjunct of `progress_core` (`WaitingBlocked`) is excluded by the message-tracking invariant
+(`Lemmas/WriterTrack.lean`, `reachable_track`). -/
+theorem close_terminates (cfg : Cfg) (hfix : cfg.fixed = true) (s : State) (hr : Reachable cfg s)
     (hwait : s.close = 2) :
-    ((step cfg s .closeReturn).isSome ∨ (∃ e, e.progress = true ∧ (step cfg s e).isSome) ∨ WaitingBlocked s) ∧
+    ((step cfg s .closeReturn).isSome ∨ (∃ e, e.progress = true ∧ (step cfg s e).isSome)) ∧
     (∀ e s', e.internal = true → step cfg s e = some s' → mu cfg s' < mu cfg s) := by
   have hclosed : s.closed = true := (reachable_closed_iff cfg s hr).mp (by omega)
-  refine ⟨progress_core cfg s hwait (reachable_noOpen cfg hfix s hr hclosed), ?_⟩
-  intro e s' he hs
-  exact measure_decreases cfg s s' e hfix hclosed he hs
+  refine ⟨?_, ?_⟩
+  · rcases progress_core cfg s hwait (reachable_noOpen cfg hfix s hr hclosed) with h | h | h
+    · exact Or.inl h
+    · exact Or.inr h
+    · exact absurd h (not_waitingBlocked s (reachable_track cfg s hr))
+  · intro e s' he hs
+    exact measure_decreases cfg s s' e hfix hclosed he hs
+
+/-- **all_completed_before_close_return** — when `CloseReturn` fires, every message that `batchMessages` accepted
+earlier has had its Completion callback (and its batch was closed) with an outcome `why`; no sender or timer
+goroutine is alive and no call is between enter and leave.  (`attemptNext_why`: `why = acked` iff the last attempt
+was acknowledged, `permanent` iff it failed permanently, `exhausted` iff it failed temporarily and it was attempt
+number ≥ MaxAttempts.) -/
+theorem all_completed_before_close_return (cfg : Cfg) (s s' : State) (hr : Reachable cfg s)
+    (hs : step cfg s .closeReturn = some s') :
+    (∀ m ∈ s.accepted, ∃ why, (m, why) ∈ s.completed) ∧
+    (∀ p ∈ s.writers, p.live = false) ∧ s.awaiters = [] ∧ (∀ c ∈ s.calls, c.holdsGroup = false) := by
+  simp only [step, Option.ite_none_right_eq_some, Bool.and_eq_true, decide_eq_true_eq] at hs
+  obtain ⟨⟨_, hwg⟩, _⟩ := hs
+  simp only [State.wg] at hwg
+  have h1 : s.calls.countP Call.holdsGroup = 0 := by omega
+  have h2 : s.writers.countP PW.live = 0 := by omega
+  have h3 : s.awaiters.length = 0 := by omega
+  rw [List.countP_eq_zero] at h1 h2
+  have hdead : ∀ p ∈ s.writers, p.live = false := by
+    intro p hp; cases hl : p.live with
+    | false => rfl
+    | true => exact absurd hl (h2 p hp)
+  refine ⟨?_, hdead, List.length_eq_zero_iff.mp h3, ?_⟩
+  · intro m hm
+    rcases (reachable_track cfg s hr).t1 m hm with ⟨x, hx, rfl⟩ | ⟨p, hp, hl, _⟩
+    · exact ⟨x.2, hx⟩
+    · simp [hdead p hp] at hl
+  · intro c hc; cases hg : c.holdsGroup with
+    | false => rfl
+    | true => exact absurd hg (h1 c hc)
 
 example : ∃ s, Reachable ⟨3, 2, true, false⟩ s ∧ s.close = 2 ∧ s.wg ≠ 0 :=
   ⟨_, ⟨[.callBegin 1 [(10, 0)] false, .enter 1, .batch 1, .closeBegin, .closeMark], rfl⟩, by decide, by decide⟩
